@@ -10,6 +10,7 @@ pub mod verif {
     pub mod hooks;
     pub mod inc_config;
     pub mod inc_fs;
+    pub mod inc_incr;
     pub mod projset;
     pub mod prop;
     pub mod report;
